@@ -93,6 +93,65 @@ func settle() {
 }
 
 // ---------------------------------------------------------------------------------------------------
+// change times: NOT monotonic in write order
+// ---------------------------------------------------------------------------------------------------
+//
+// Every write of these families is stamped with a change time chosen by the generator, either through the
+// public write option WithWriteTime ("@t") or by stepping the resource's injected clock before the write
+// ("^t"); times go up, down and zigzag.  Nothing in the lossy stages may depend on them: the most recent
+// value is the last one WRITTEN.  The time travels with the value (value tokens "sn@t", the time field of a
+// collection change), so the ties also compare which change time is delivered with which value.
+
+var timeBase = time.Unix(1_700_000_000, 0)
+
+const seedT = 5 // the clock's reading when the resource is created: the change time of seeds
+
+type stepClock struct{ now atomic.Int64 }
+
+func newStepClock() *stepClock      { c := &stepClock{}; c.now.Store(seedT); return c }
+func (c *stepClock) Now() time.Time { return timeBase.Add(time.Duration(c.now.Load()) * time.Second) }
+
+func relTime(t time.Time) string {
+	if t.IsZero() {
+		return "zero"
+	}
+	return fmt.Sprintf("%d", int64(t.Sub(timeBase)/time.Second))
+}
+
+// splitTime: "x@7" -> ("x", 7, false); "x^7" -> ("x", 7, true: through the clock); "x" -> ("x", seedT, true)
+func splitTime(s string) (body string, t int64, viaClock bool) {
+	if i := strings.LastIndexAny(s, "@^"); i >= 0 {
+		fmt.Sscanf(s[i+1:], "%d", &t)
+		return s[:i], t, s[i] == '^'
+	}
+	return s, seedT, true
+}
+
+// timeOf: the change time the k-th write (k = 0, 1, …) of a generated case is stamped with
+func timeOf(pattern string, k int) string {
+	clampT := func(t int) int {
+		if t < 0 {
+			return 0
+		}
+		return t
+	}
+	via := pattern[len(pattern)-1:]
+	switch pattern[:len(pattern)-1] {
+	case "down":
+		return fmt.Sprintf("%s%d", via, clampT(40-k))
+	case "zig":
+		if k%2 == 0 {
+			return fmt.Sprintf("%s%d", via, 20+k)
+		}
+		return fmt.Sprintf("%s%d", via, clampT(20-k))
+	case "same":
+		return via + "7"
+	default: // up
+		return fmt.Sprintf("%s%d", via, k+1)
+	}
+}
+
+// ---------------------------------------------------------------------------------------------------
 // Value
 // ---------------------------------------------------------------------------------------------------
 
@@ -101,7 +160,24 @@ type vrunCase struct {
 	Equiv string   `json:"equiv"` // nil | never | eq | class | near
 	Mask  bool     `json:"mask"`  // read mask "seconds": token sn is delivered as s0
 	Seed  string   `json:"seed"`  // value at subscribe time; "-" = WithUpdatesOnly (no seed, nothing sent yet)
-	Moves []string `json:"moves"`
+	Moves []string `json:"moves"` // "w:<sn>@<t>" Set(…, WithWriteTime(t)) | "w:<sn>^<t>" clock stepped to t, then Set | "d"
+}
+
+// wtok: the model token "sn@t" of a write move
+func wtok(mv string) string {
+	body, t, _ := splitTime(strings.TrimPrefix(mv, "w:"))
+	return fmt.Sprintf("%s@%d", body, t)
+}
+
+func (c vrunCase) seedTok() string {
+	if c.Seed == "-" {
+		return "-"
+	}
+	return fmt.Sprintf("%s@%d", c.Seed, seedT)
+}
+
+func showValueChange(ev *resource.ValueChange) string {
+	return durTok(ev.Value) + "@" + relTime(ev.ChangeTime)
 }
 
 type vrunObs struct {
@@ -167,7 +243,7 @@ func equivOf(name string, calls *atomic.Int64) resource.Comparer {
 func equivTok(name, a, b string) bool {
 	switch name {
 	case "eq":
-		return a == b
+		return a[:2] == b[:2]
 	case "class":
 		return a[0] == b[0]
 	case "near":
@@ -179,7 +255,7 @@ func equivTok(name, a, b string) bool {
 
 func (c vrunCase) filt(tok string) string {
 	if c.Mask {
-		return tok[:1] + "0"
+		return tok[:1] + "0" + tok[2:]
 	}
 	return tok
 }
@@ -193,7 +269,14 @@ func (c vrunCase) modelLine() string {
 	if c.Mask {
 		mask = "1"
 	}
-	return "vrun " + eq + " " + mask + " " + c.Seed + " " + strings.Join(c.Moves, " ")
+	ms := make([]string, len(c.Moves))
+	for i, mv := range c.Moves {
+		ms[i] = mv
+		if mv != "d" {
+			ms[i] = "w:" + wtok(mv)
+		}
+	}
+	return "vrun " + eq + " " + mask + " " + c.seedTok() + " " + strings.Join(ms, " ")
 }
 
 // splitModel: per-move model outputs and the drain list; ok=false if the answer has another shape.
@@ -230,7 +313,8 @@ func (c vrunCase) runCode(model string, b *pipeBudget) vrunObs {
 	if c.Seed != "-" {
 		initial = c.Seed
 	}
-	opts := []resource.Option{resource.WithInitialValue(durOf(initial))}
+	clock := newStepClock()
+	opts := []resource.Option{resource.WithInitialValue(durOf(initial)), resource.WithClock(clock)}
 	if e := equivOf(c.Equiv, &calls); e != nil {
 		opts = append(opts, resource.WithEquivalence(e))
 	}
@@ -260,7 +344,7 @@ func (c vrunCase) runCode(model string, b *pipeBudget) vrunObs {
 			if !ok {
 				return "closed"
 			}
-			return durTok(ev.Value)
+			return showValueChange(ev)
 		case <-t.C:
 			return "timeout"
 		}
@@ -318,9 +402,15 @@ func (c vrunCase) runCode(model string, b *pipeBudget) vrunObs {
 			catchUp(mo)
 			continue
 		}
-		tok := strings.TrimPrefix(mv, "w:")
+		tok, wt, viaClock := splitTime(strings.TrimPrefix(mv, "w:"))
+		var wopts []resource.WriteOption
+		if viaClock {
+			clock.now.Store(wt)
+		} else {
+			wopts = append(wopts, resource.WithWriteTime(timeBase.Add(time.Duration(wt)*time.Second)))
+		}
 		t0 := time.Now()
-		ok, err := timedCall(b.writeBound(), func() error { _, err := v.Set(durOf(tok)); return err })
+		ok, err := timedCall(b.writeBound(), func() error { _, err := v.Set(durOf(tok), wopts...); return err })
 		if !ok {
 			b.noteBlocked()
 			obs.WriteBlock = mv
@@ -339,10 +429,10 @@ func (c vrunCase) runCode(model string, b *pipeBudget) vrunObs {
 	if free {
 		// nothing is suppressed without an equivalence and the generator gives these cases distinct values:
 		// the stream is quiescent exactly when the last value written (else the seed) has arrived
-		target := c.Seed
+		target := c.seedTok()
 		for _, mv := range c.Moves {
 			if mv != "d" {
-				target = strings.TrimPrefix(mv, "w:")
+				target = wtok(mv)
 			}
 		}
 		last := ""
@@ -400,12 +490,12 @@ func (c vrunCase) monitor(m *lib.Monitor, obs vrunObs) {
 	}
 	var written []string // what the subscriber may see, in order: the seed, then every write, as filtered
 	if c.Seed != "-" {
-		written = append(written, c.filt(c.Seed))
+		written = append(written, c.filt(c.seedTok()))
 	}
-	lastWritten := c.Seed
+	lastWritten := c.seedTok()
 	for _, mv := range c.Moves {
 		if mv != "d" {
-			tok := strings.TrimPrefix(mv, "w:")
+			tok := wtok(mv)
 			written = append(written, c.filt(tok))
 			lastWritten = tok
 		}
@@ -430,7 +520,7 @@ func (c vrunCase) monitor(m *lib.Monitor, obs vrunObs) {
 			j++
 		}
 		if j == len(written) {
-			m.Violate("C09/Value/lossy/pipeline/not-a-subsequence", "received values must be a subsequence of the written ones (seed first), in order, as the read mask shows them", c, strings.Join(written, " "), strings.Join(got, " "))
+			m.Violate("C09/Value/lossy/pipeline/not-a-subsequence", "received values (each with the change time of its write) must be a subsequence of the written ones (seed first), in order, as the read mask shows them", c, strings.Join(written, " "), strings.Join(got, " "))
 			return
 		}
 		j++
@@ -441,7 +531,7 @@ func (c vrunCase) monitor(m *lib.Monitor, obs vrunObs) {
 			break
 		}
 	}
-	if obs.Stored != lastWritten && lastWritten != "-" {
+	if lastWritten != "-" && obs.Stored != lastWritten[:2] {
 		m.Violate("C09/Value/lossy/pipeline/stored-differs", "Get does not return the last value written", c, lastWritten, obs.Stored)
 	}
 	// eventually the most recent value, modulo the configured equivalence
@@ -456,6 +546,19 @@ func (c vrunCase) monitor(m *lib.Monitor, obs vrunObs) {
 	}
 	m.Eval(c.key(), len(got) < len(written), nil)
 	m.Count("equiv=" + c.Equiv)
+	prev, nonMono := int64(seedT), false
+	for _, mv := range c.Moves {
+		if mv != "d" {
+			_, t, _ := splitTime(mv)
+			if t < prev {
+				nonMono = true
+			}
+			prev = t
+		}
+	}
+	if nonMono {
+		m.Count("a write stamped earlier than the one before it")
+	}
 }
 
 func (c vrunCase) key() string {
@@ -466,37 +569,46 @@ func genVrunCases(f lib.Flags) []vrunCase {
 	var cases []vrunCase
 	// exhaustive: every pattern of writes from a three-value alphabet (two of them equivalent under
 	// class/near, 10 ~ 11; 20 is equivalent to neither under class, 30 not under near) and receives
+	// the k-th write of a case is stamped by the configuration's time pattern (up/down/zig/same, through
+	// WithWriteTime "@" or the stepped clock "^"): write times are not monotonic
 	alphabet := []string{"w:10", "w:11", "w:20", "d"}
-	var rec func(n int, prefix []string, yield func([]string))
-	rec = func(n int, prefix []string, yield func([]string)) {
+	var rec func(n int, pattern string, nw int, prefix []string, yield func([]string))
+	rec = func(n int, pattern string, nw int, prefix []string, yield func([]string)) {
 		if n == 0 {
 			yield(append([]string{}, prefix...))
 			return
 		}
 		for _, a := range alphabet {
-			rec(n-1, append(prefix, a), yield)
+			if a == "d" {
+				rec(n-1, pattern, nw, append(prefix, a), yield)
+			} else {
+				rec(n-1, pattern, nw+1, append(prefix, a+timeOf(pattern, nw)), yield)
+			}
 		}
 	}
 	type cfg struct {
 		equiv string
 		mask  bool
 		seed  string
+		times string
 		L     int
 	}
 	cfgs := []cfg{
-		{"class", false, "10", f.N(6, 7)}, {"eq", false, "10", f.N(5, 6)}, {"near", false, "10", f.N(5, 6)},
-		{"never", false, "10", f.N(4, 5)}, {"class", false, "-", f.N(5, 6)}, {"eq", true, "10", f.N(5, 6)},
-		{"class", true, "-", f.N(4, 5)},
+		{"never", false, "10", "down@", f.N(4, 5)}, {"never", false, "10", "zig^", f.N(4, 5)},
+		{"class", false, "10", "zig@", f.N(6, 7)}, {"eq", false, "10", "down^", f.N(5, 6)}, {"near", false, "10", "up@", f.N(5, 6)},
+		{"class", false, "-", "down@", f.N(5, 6)}, {"eq", true, "10", "zig^", f.N(5, 6)},
+		{"class", true, "-", "same@", f.N(4, 5)},
 	}
 	for _, g := range cfgs {
 		for n := 1; n <= g.L; n++ {
-			rec(n, nil, func(moves []string) {
+			rec(n, g.times, 0, nil, func(moves []string) {
 				cases = append(cases, vrunCase{Kind: "vrun", Equiv: g.equiv, Mask: g.mask, Seed: g.seed, Moves: moves})
 			})
 		}
 	}
 	r := lib.NewRand(f.Seed + 17)
 	equivs := []string{"nil", "never", "eq", "class", "near"}
+	via := []string{"@", "^"}
 	for i, n := 0, f.N(300, 4000); i < n; i++ {
 		c := vrunCase{Kind: "vrun", Equiv: equivs[r.Intn(len(equivs))], Mask: r.Intn(3) == 0, Seed: "-"}
 		if r.Intn(4) > 0 {
@@ -516,9 +628,9 @@ func genVrunCases(f lib.Flags) []vrunCase {
 				c.Moves = append(c.Moves, "d")
 			case c.Equiv == "nil":
 				nw++
-				c.Moves = append(c.Moves, fmt.Sprintf("w:%d%d", 1+nw/10, nw%10))
+				c.Moves = append(c.Moves, fmt.Sprintf("w:%d%d%s%d", 1+nw/10, nw%10, via[r.Intn(2)], r.Intn(10)))
 			default:
-				c.Moves = append(c.Moves, fmt.Sprintf("w:%d%d", 1+r.Intn(4), r.Intn(3)))
+				c.Moves = append(c.Moves, fmt.Sprintf("w:%d%d%s%d", 1+r.Intn(4), r.Intn(3), via[r.Intn(2)], r.Intn(10)))
 			}
 		}
 		cases = append(cases, c)
@@ -528,8 +640,8 @@ func genVrunCases(f lib.Flags) []vrunCase {
 
 func runValuePipeline(f lib.Flags, res *lib.Result, drv *lib.Driver) {
 	tie := res.Tie("value-pull-pipeline", "K1",
-		"the REAL resource.Value with one lossy Pull subscriber, end to end (Set -> bus -> DropExcess -> Pull's forwarder with read mask and equivalence -> consumer), one move at a time (w:<value> = Set, d = the consumer receives once; after every move the harness waits until the forwarder has caught up) vs the model's vstepF machine scheduled greedily: ALL move sequences up to length L (4..6 quick, 5..7 thorough, by configuration) over 3 values (two of them equivalent) + receive, for the equivalences never/eq(cmp.Equal)/class/near(non-transitive), with and without a read mask, with a seed and updates-only; plus random longer ones; compared: what every receive yields and what a final drain yields; non-trivial = at least two writes; distinct = (equivalence, mask, seed, moves)")
-	mon := res.Monitor("value-pull-latest", "on the same runs, independent of the model: Set never blocks or fails; the received values are a subsequence of seed+writes as the read mask shows them; no value equivalent to the one delivered just before it; after a final drain the last received value IS the most recent value or is equivalent to it under the configured equivalence (nil equivalence included, monitor only); distinct = the case; non-trivial = something was dropped")
+		"the REAL resource.Value with one lossy Pull subscriber, end to end (Set -> bus -> DropExcess -> Pull's forwarder with read mask and equivalence -> consumer), one move at a time (w:<value>@<t> / w:<value>^<t> = Set stamped with change time t through WithWriteTime / through the resource's stepped clock — times go up, down and zigzag, NOT monotonic in write order — d = the consumer receives once, yielding value@time; after every move the harness waits until the forwarder has caught up) vs the model's vstepF machine scheduled greedily: ALL move sequences up to length L (4..6 quick, 5..7 thorough, by configuration) over 3 values (two of them equivalent) + receive, for the equivalences never/eq(cmp.Equal)/class/near(non-transitive), with and without a read mask, with a seed and updates-only; plus random longer ones; compared: what every receive yields and what a final drain yields; non-trivial = at least two writes; distinct = (equivalence, mask, seed, moves)")
+	mon := res.Monitor("value-pull-latest", "on the same runs, independent of the model: Set never blocks or fails; the received values, each with the change time its write was stamped with, are a subsequence of seed+writes as the read mask shows them (write times are not monotonic: WithWriteTime in the past, clock stepped back); no value equivalent to the one delivered just before it; after a final drain the last received value IS the most recent value or is equivalent to it under the configured equivalence (nil equivalence included, monitor only); distinct = the case; non-trivial = something was dropped")
 	cases := genVrunCases(f)
 	lines := make([]string, len(cases))
 	for i, c := range cases {
@@ -619,9 +731,62 @@ func stripCounts(ans string) string {
 type crunCase struct {
 	Kind  string            `json:"kind"` // "crun"
 	Start map[string]string `json:"start"`
-	Subs  []string          `json:"subs"` // "pull" | "id:<id>"; a "!" after the kind = WithUpdatesOnly
-	Hold  bool              `json:"hold"` // plus a backpressured Pull subscriber that receives at once and keeps the event objects
-	Moves []string          `json:"moves"`
+	Subs  []string          `json:"subs"`  // "pull" | "id:<id>"; a "!" after the kind = WithUpdatesOnly; then optionally "~<include>": WithInclude(all|odd|even|ida)
+	Hold  bool              `json:"hold"`  // plus a backpressured Pull subscriber that receives at once and keeps the event objects
+	Moves []string          `json:"moves"` // "u:<id>:<val>[@t|^t]" | "x:<id>[^t]" | "d<k>"  (@t: WithWriteTime, ^t: the clock is stepped to t first)
+}
+
+// the closed family of WithInclude functions, on tokens (oracle side; the driver has its own copy)
+func includeTok(name, id, val string) bool {
+	switch name {
+	case "odd":
+		return (val[len(val)-1]-'0')%2 == 1
+	case "even":
+		return (val[len(val)-1]-'0')%2 == 0
+	case "ida":
+		return id == "a"
+	}
+	return true
+}
+
+// subKind: "pull!~odd" -> ("pull!", "odd"); no "~" = "all"
+func subKind(kind string) (base, include string) {
+	if i := strings.Index(kind, "~"); i >= 0 {
+		return kind[:i], kind[i+1:]
+	}
+	return kind, "all"
+}
+
+func filterView(include string, v map[string]string) map[string]string {
+	out := map[string]string{}
+	for id, val := range v {
+		if includeTok(include, id, val) {
+			out[id] = val
+		}
+	}
+	return out
+}
+
+// showChangeRel: like showChange, with the change time relative to timeBase
+func showChangeRel(c *resource.CollectionChange) string {
+	if c == nil {
+		return "nil-change"
+	}
+	return strings.Join([]string{c.Id, kindName(c.ChangeType), relTime(c.ChangeTime), tokOf(c.OldValue), tokOf(c.NewValue), flag(c.SeedValue), flag(c.LastSeedValue)}, ",")
+}
+
+// parseCMove: a write move -> op ("u"|"x"), id, value, change time, whether it is set through the clock
+func parseCMove(mv string) (op, id, val string, t int64, viaClock bool) {
+	body, t, viaClock := splitTime(mv)
+	p := strings.Split(body, ":")
+	op, id = p[0], p[1]
+	if len(p) > 2 {
+		val = p[2]
+	}
+	if op == "x" {
+		viaClock = true // Delete stamps its event with the clock whatever write options it is given
+	}
+	return op, id, val, t, viaClock
 }
 
 type heldEvent struct {
@@ -659,21 +824,25 @@ func (c crunCase) events() (evs []string, perMove []string, final map[string]str
 	view := copyView(c.Start)
 	removedOnce = map[string]bool{}
 	for _, mv := range c.Moves {
-		p := strings.Split(mv, ":")
 		ev := ""
-		switch p[0] {
+		if strings.HasPrefix(mv, "d") {
+			perMove = append(perMove, ev)
+			continue
+		}
+		op, id, val, t, _ := parseCMove(mv)
+		switch op {
 		case "u":
-			if cur, ok := view[p[1]]; ok {
-				ev = fmt.Sprintf("%s,UPDATE,0,%s,%s,0,0", p[1], cur, p[2])
+			if cur, ok := view[id]; ok {
+				ev = fmt.Sprintf("%s,UPDATE,%d,%s,%s,0,0", id, t, cur, val)
 			} else {
-				ev = fmt.Sprintf("%s,ADD,0,-,%s,0,0", p[1], p[2])
+				ev = fmt.Sprintf("%s,ADD,%d,-,%s,0,0", id, t, val)
 			}
-			view[p[1]] = p[2]
+			view[id] = val
 		case "x":
-			if cur, ok := view[p[1]]; ok {
-				ev = fmt.Sprintf("%s,REMOVE,0,%s,-,0,0", p[1], cur)
-				delete(view, p[1])
-				removedOnce[p[1]] = true
+			if cur, ok := view[id]; ok {
+				ev = fmt.Sprintf("%s,REMOVE,%d,%s,-,0,0", id, t, cur)
+				delete(view, id)
+				removedOnce[id] = true
 			}
 		}
 		perMove = append(perMove, ev)
@@ -694,14 +863,17 @@ func (c crunCase) modelLine() string {
 			ms = append(ms, "s:"+perMove[i])
 		}
 	}
-	return "crun " + strings.Join(c.Subs, ",") + " " + showOuts(c.seeds()) + " " + strings.Join(ms, " ")
+	return "crun " + strings.Join(c.Subs, ",") + " " + showOuts(c.seeds("all")) + " " + strings.Join(ms, " ")
 }
 
-// seeds: the seed changes Pull sends for the start view: one ADD per item, sorted by id, the last flagged.
-func (c crunCase) seeds() []string {
+// seeds: the seed changes Pull sends for the start view as the named filter admits it: one ADD per admitted
+// item, sorted by id, the last flagged.  (The model line carries seeds("all"); the driver filters per subscriber.)
+func (c crunCase) seeds(include string) []string {
 	var ids []string
-	for id := range c.Start {
-		ids = append(ids, id)
+	for id, val := range c.Start {
+		if includeTok(include, id, val) {
+			ids = append(ids, id)
+		}
 	}
 	sort.Strings(ids)
 	var out []string
@@ -710,7 +882,7 @@ func (c crunCase) seeds() []string {
 		if i == len(ids)-1 {
 			last = "1"
 		}
-		out = append(out, fmt.Sprintf("%s,ADD,0,-,%s,1,%s", id, c.Start[id], last))
+		out = append(out, fmt.Sprintf("%s,ADD,%d,-,%s,1,%s", id, seedT, c.Start[id], last))
 	}
 	return out
 }
@@ -740,7 +912,7 @@ func (s *crunSub) recv(wait time.Duration) (string, *resource.CollectionChange) 
 			if !ok {
 				return "closed", nil
 			}
-			return showChange(ev, false), ev
+			return showChangeRel(ev), ev
 		case <-t.C:
 			return "timeout", nil
 		}
@@ -768,6 +940,8 @@ func (c crunCase) runCode(model string, b *pipeBudget) crunObs {
 	for id, val := range c.Start {
 		copts = append(copts, resource.WithInitialRecord(id, wrapperspb.String(val)))
 	}
+	clock := newStepClock()
+	copts = append(copts, resource.WithClock(clock))
 	col := resource.NewCollection(copts...)
 	root, stop := context.WithCancel(context.Background())
 	defer stop()
@@ -794,7 +968,11 @@ func (c crunCase) runCode(model string, b *pipeBudget) crunObs {
 	obs.Drains = make([][]string, len(c.Subs))
 	for k, kind := range c.Subs {
 		s := &crunSub{kind: "pull"}
-		ropts := []resource.ReadOption{resource.WithInclude(func(id string, item proto.Message) bool { s.seen.Add(1); return true })}
+		kind, include := subKind(kind)
+		ropts := []resource.ReadOption{resource.WithInclude(func(id string, item proto.Message) bool {
+			s.seen.Add(1)
+			return includeTok(include, id, tokOf(item))
+		})}
 		if strings.Contains(kind, "!") {
 			ropts = append(ropts, resource.WithUpdatesOnly(true)) // no seeds; the view the stream starts from is the start view
 		}
@@ -814,7 +992,7 @@ func (c crunCase) runCode(model string, b *pipeBudget) crunObs {
 		go func() {
 			for ev := range hch {
 				holdMu.Lock()
-				obs.HoldGot = append(obs.HoldGot, heldEvent{ev, showChange(ev, false)})
+				obs.HoldGot = append(obs.HoldGot, heldEvent{ev, showChangeRel(ev)})
 				holdN++
 				holdMu.Unlock()
 			}
@@ -881,14 +1059,20 @@ func (c crunCase) runCode(model string, b *pipeBudget) crunObs {
 			catchUp(mo)
 			continue
 		}
-		p := strings.Split(mv, ":")
+		op, wid, wval, wt, viaClock := parseCMove(mv)
+		wopts := []resource.WriteOption{resource.WithCreateIfAbsent()}
+		if viaClock {
+			clock.now.Store(wt)
+		} else {
+			wopts = append(wopts, resource.WithWriteTime(timeBase.Add(time.Duration(wt)*time.Second)))
+		}
 		t0 := time.Now()
 		ok, err := timedCall(b.writeBound(), func() error {
-			if p[0] == "x" {
-				_, err := col.Delete(p[1])
+			if op == "x" {
+				_, err := col.Delete(wid)
 				return err
 			}
-			_, err := col.Update(p[1], wrapperspb.String(p[2]), resource.WithCreateIfAbsent())
+			_, err := col.Update(wid, wrapperspb.String(wval), wopts...)
 			return err
 		})
 		if !ok {
@@ -1027,30 +1211,59 @@ func (c crunCase) monitor(m *lib.Monitor, obs crunObs) {
 				got = append(got, o)
 			}
 		}
+		kind, include := subKind(kind)
 		updatesOnly := strings.Contains(kind, "!")
 		if !strings.HasPrefix(kind, "id") {
 			if closed {
 				m.Violate("C09/Collection/multi/stream-closed", "a Pull stream ended although its context is live", c, "open", fmt.Sprintf("subscriber %d closed", k))
 				continue
 			}
+			// the subscriber's view is the collection as its WithInclude filter admits it (= List with that filter)
 			view := map[string]string{}
 			if updatesOnly {
-				view = copyView(c.Start)
+				view = filterView(include, c.Start)
+			}
+			sigInc := ""
+			if include != "all" {
+				sigInc = "/include"
 			}
 			for _, ev := range got {
+				at := showView(view)
 				if !foldInto(view, ev) {
-					m.Violate("C09/Collection/multi/old-value-chain", "with several subscribers on one collection, a delivered change is not well formed at the receiving subscriber's own view (old values must chain per id)", c, "well-formed at "+showView(view), fmt.Sprintf("subscriber %d: %s (stream %s)", k, ev, strings.Join(got, ";")))
+					m.Violate("C09/Collection/multi"+sigInc+"/old-value-chain", "with several subscribers on one collection, a delivered change is not well formed at the receiving subscriber's own (filtered) view (old values must chain per id, ADD only of an item the view lacks, REMOVE only of one it has)", c, "well-formed at "+at, fmt.Sprintf("subscriber %d (include %s): %s (stream %s)", k, include, ev, strings.Join(got, ";")))
+					break
+				}
+				if f := fields(ev); f[1] != "REMOVE" && !includeTok(include, f[0], f[4]) {
+					m.Violate("C09/Collection/multi"+sigInc+"/excluded-value-delivered", "a subscriber with an include filter was handed a value its filter excludes", c, "only admitted values", fmt.Sprintf("subscriber %d (include %s): %s (stream %s)", k, include, ev, strings.Join(got, ";")))
 					break
 				}
 			}
-			if a, w := showView(view), showView(final); a != w {
-				m.Violate("C09/Collection/multi/fold-differs", "after draining, a subscriber's received changes fold to a different view than the collection holds", c, w, fmt.Sprintf("subscriber %d: %s", k, a))
+			if a, w := showView(view), showView(filterView(include, final)); a != w {
+				m.Violate("C09/Collection/multi"+sigInc+"/fold-differs", "after draining, a subscriber's received changes fold to a different view than the collection holds (as the subscriber's include filter admits it)", c, w, fmt.Sprintf("subscriber %d (include %s): %s (stream %s)", k, include, a, strings.Join(got, ";")))
+			}
+			// every delivered change carries the change time of the last write merged into it
+			for _, ev := range got {
+				f := fields(ev)
+				if f[5] == "1" {
+					continue
+				}
+				okT := false
+				for _, sent := range obs.Events {
+					if g := fields(sent); g[0] == f[0] && g[2] == f[2] && (g[4] == f[4] || f[1] == "REMOVE") {
+						okT = true
+						break
+					}
+				}
+				if !okT {
+					m.Violate("C09/Collection/multi/change-time", "a delivered change carries a change time no write of that id and value was stamped with", c, "the time of the write that set the value", fmt.Sprintf("subscriber %d: %s", k, ev))
+					break
+				}
 			}
 			if len(got) < len(c.Start)+len(obs.Events) && !updatesOnly || len(got) < len(obs.Events) {
 				dropped = true
 			}
 			for _, h := range obs.Held[k] {
-				if now := showChange(h.ev, false); now != h.shot {
+				if now := showChangeRel(h.ev); now != h.shot {
 					m.Violate("C09/Collection/multi/event-rewritten-after-delivery", "an event object a subscriber had received was modified afterwards (it is shared with another subscriber's pipeline)", c, h.shot, fmt.Sprintf("subscriber %d now holds %s", k, now))
 					break
 				}
@@ -1096,7 +1309,7 @@ func (c crunCase) monitor(m *lib.Monitor, obs crunObs) {
 		var got, want []string
 		for _, h := range obs.HoldGot {
 			got = append(got, h.shot)
-			if now := showChange(h.ev, false); now != h.shot {
+			if now := showChangeRel(h.ev); now != h.shot {
 				m.Violate("C09/Collection/multi/event-rewritten-after-delivery", "an event object a backpressured subscriber had received was modified afterwards (it is shared with a lossy subscriber's merge buffer)", c, h.shot, "now "+now)
 				break
 			}
@@ -1111,6 +1324,23 @@ func (c crunCase) monitor(m *lib.Monitor, obs crunObs) {
 	}
 	m.Eval(c.key(), dropped, nil)
 	m.Count(fmt.Sprintf("subscribers=%d", len(c.Subs)))
+	for _, kind := range c.Subs {
+		if _, include := subKind(kind); include != "all" {
+			m.Count("a subscriber with an include filter (" + include + ")")
+		}
+	}
+	prevT, nonMono := int64(seedT), false
+	for _, ev := range obs.Events {
+		var t int64
+		fmt.Sscanf(fields(ev)[2], "%d", &t)
+		if t < prevT {
+			nonMono = true
+		}
+		prevT = t
+	}
+	if nonMono {
+		m.Count("a write stamped earlier than the one before it")
+	}
 }
 
 func genCrunCases(f lib.Flags) []crunCase {
@@ -1119,17 +1349,24 @@ func genCrunCases(f lib.Flags) []crunCase {
 		subs  []string
 		hold  bool
 		start map[string]string
+		times string // how the t-th write is stamped (timeOf): change times are not monotonic in write order
 		L     int
 	}
+	// "~<include>": the subscriber pulls WithInclude(odd|even|ida): the merge output is piped through
+	// CollectionChange.include, and the values written alternate between admitted and excluded
 	cfgs := []cfg{
-		{[]string{"pull", "pull"}, false, map[string]string{}, f.N(5, 6)},
-		{[]string{"pull", "pull"}, false, map[string]string{"a": "a0"}, f.N(5, 6)},
-		{[]string{"pull"}, false, map[string]string{"a": "a0", "b": "b0"}, f.N(5, 7)},
-		{[]string{"pull", "id:a"}, false, map[string]string{"a": "a0"}, f.N(4, 6)},
-		{[]string{"id:a", "id:b"}, false, map[string]string{"b": "b0"}, f.N(4, 5)},
-		{[]string{"pull", "id:a"}, true, map[string]string{}, f.N(4, 5)},
-		{[]string{"pull"}, true, map[string]string{"a": "a0"}, f.N(5, 6)},
-		{[]string{"pull!", "id!:a"}, false, map[string]string{"a": "a0"}, f.N(4, 5)},
+		{[]string{"pull~even"}, false, map[string]string{"a": "a0"}, "down^", f.N(6, 7)},
+		{[]string{"pull~odd", "pull~even"}, false, map[string]string{"a": "a0", "b": "b1"}, "zig@", f.N(5, 6)},
+		{[]string{"pull!~even", "pull~ida"}, false, map[string]string{"a": "a0"}, "up@", f.N(5, 6)},
+		{[]string{"pull~odd"}, true, map[string]string{}, "zig^", f.N(5, 6)},
+		{[]string{"pull", "pull"}, false, map[string]string{}, "down@", f.N(5, 6)},
+		{[]string{"pull", "pull"}, false, map[string]string{"a": "a0"}, "zig^", f.N(5, 6)},
+		{[]string{"pull"}, false, map[string]string{"a": "a0", "b": "b0"}, "zig@", f.N(5, 7)},
+		{[]string{"pull", "id:a"}, false, map[string]string{"a": "a0"}, "down^", f.N(4, 6)},
+		{[]string{"id:a", "id:b"}, false, map[string]string{"b": "b0"}, "up@", f.N(4, 5)},
+		{[]string{"pull", "id:a"}, true, map[string]string{}, "same@", f.N(4, 5)},
+		{[]string{"pull"}, true, map[string]string{"a": "a0"}, "down@", f.N(5, 6)},
+		{[]string{"pull!", "id!:a"}, false, map[string]string{"a": "a0"}, "zig^", f.N(4, 5)},
 	}
 	for _, g := range cfgs {
 		var rec func(n int, view map[string]string, t int, prefix []string)
@@ -1146,11 +1383,11 @@ func genCrunCases(f lib.Flags) []crunCase {
 			for _, id := range []string{"a", "b"} {
 				w := copyView(view)
 				w[id] = fmt.Sprintf("%s%d", id, t)
-				rec(n-1, w, t+1, append(prefix, fmt.Sprintf("u:%s:%s%d", id, id, t)))
+				rec(n-1, w, t+1, append(prefix, fmt.Sprintf("u:%s:%s%d%s", id, id, t, timeOf(g.times, t-1))))
 				if _, ok := view[id]; ok && id == "a" {
 					w := copyView(view)
 					delete(w, id)
-					rec(n-1, w, t+1, append(prefix, "x:"+id))
+					rec(n-1, w, t+1, append(prefix, "x:"+id+"^"+timeOf(g.times, t-1)[1:]))
 				}
 			}
 		}
@@ -1168,7 +1405,7 @@ func genCrunCase(r *rand.Rand) crunCase {
 	c := crunCase{Kind: "crun", Start: map[string]string{}, Hold: r.Intn(3) == 0}
 	for _, id := range ids {
 		if r.Intn(2) == 0 {
-			c.Start[id] = id + "0"
+			c.Start[id] = fmt.Sprintf("%s%d", id, r.Intn(2))
 		}
 	}
 	for k, n := 0, 1+r.Intn(3); k < n; k++ {
@@ -1179,7 +1416,11 @@ func genCrunCase(r *rand.Rand) crunCase {
 		if r.Intn(3) == 0 {
 			c.Subs = append(c.Subs, "id"+uo+":"+ids[r.Intn(len(ids))])
 		} else {
-			c.Subs = append(c.Subs, "pull"+uo)
+			inc := ""
+			if r.Intn(2) == 0 {
+				inc = "~" + []string{"odd", "even", "ida"}[r.Intn(3)]
+			}
+			c.Subs = append(c.Subs, "pull"+uo+inc)
 		}
 	}
 	view := copyView(c.Start)
@@ -1190,11 +1431,14 @@ func genCrunCase(r *rand.Rand) crunCase {
 	for t, L := 1, 3+r.Intn(22); t <= L; t++ {
 		id := ids[r.Intn(len(ids))]
 		if _, ok := view[id]; ok && r.Intn(4) == 0 {
-			c.Moves = append(c.Moves, "x:"+id)
+			c.Moves = append(c.Moves, fmt.Sprintf("x:%s^%d", id, r.Intn(10)))
 			delete(view, id)
 		} else {
-			val := fmt.Sprintf("%s%d", id, t)
-			c.Moves = append(c.Moves, "u:"+id+":"+val)
+			val := fmt.Sprintf("%s%d", id, r.Intn(10))
+			if val == view[id] {
+				val = fmt.Sprintf("%s%d", id, (int(val[1]-'0')+1)%10)
+			}
+			c.Moves = append(c.Moves, fmt.Sprintf("u:%s:%s%s%d", id, val, []string{"@", "^"}[r.Intn(2)], r.Intn(10)))
 			view[id] = val
 		}
 		for k := range c.Subs {
@@ -1208,8 +1452,8 @@ func genCrunCase(r *rand.Rand) crunCase {
 
 func runCollectionPipelines(f lib.Flags, res *lib.Result, drv *lib.Driver) {
 	tie := res.Tie("collection-subscribers", "K1",
-		"the REAL resource.Collection with SEVERAL lossy subscribers on one bus (each Collection.Pull or Collection.PullID, seeded or WithUpdatesOnly; optionally next to a backpressured one that keeps receiving), end to end (Update/Delete -> bus -> mergeCollectionExcess -> Pull's forwarder [-> PullID's goroutine] -> consumer k), one move at a time (u:/x: = a write, d<k> = consumer k receives once; after every move the harness waits until every forwarder has caught up) vs the model's sysStep: one machine per subscriber, independent of each other, scheduled greedily: ALL move sequences up to length L (4..5 quick, 5..7 thorough, by configuration) over 2 ids x 1..2 subscribers' receives (seeds of the start view are received as part of the moves, so writes also arrive and merge during the seed phase) from several start views and subscriber mixes, plus random longer ones (<= 3 subscribers, 3 ids); compared: what every receive yields (all fields but the wall-clock time) and what a final drain of every subscriber yields; non-trivial = at least two writes; distinct = (start, subscribers, moves)")
-	mon := res.Monitor("subscribers-independent", "on the same runs, independent of the model: no write blocks, fails or waits (bound 2s) whichever lossy subscribers stall; every Pull subscriber's own stream chains per id at its own view and folds, after a drain, to the collection's state (= List); no event object a subscriber received changes afterwards (re-rendered at the end); a PullID subscriber receives a subsequence of its item's values, ends only if the item was removed, and otherwise ends on the item's most recent value; a backpressured subscriber that keeps receiving gets every change in order; distinct = the case; non-trivial = something was merged away or skipped")
+		"the REAL resource.Collection with SEVERAL lossy subscribers on one bus (each Collection.Pull or Collection.PullID, seeded or WithUpdatesOnly; optionally next to a backpressured one that keeps receiving), end to end (Update/Delete -> bus -> mergeCollectionExcess -> Pull's forwarder [-> PullID's goroutine] -> consumer k), one move at a time (u:/x: = a write stamped with a change time through WithWriteTime or the collection's stepped clock — times go up, down and zigzag, NOT monotonic in write order —, d<k> = consumer k receives once; Pull subscribers optionally WithInclude(odd|even|ida) so that the merge output is piped through CollectionChange.include with values moving into and out of the admitted set; after every move the harness waits until every forwarder has caught up) vs the model's sysStep: one machine per subscriber, independent of each other, scheduled greedily: ALL move sequences up to length L (4..5 quick, 5..7 thorough, by configuration) over 2 ids x 1..2 subscribers' receives (seeds of the start view are received as part of the moves, so writes also arrive and merge during the seed phase) from several start views and subscriber mixes, plus random longer ones (<= 3 subscribers, 3 ids); compared: what every receive yields (all fields but the wall-clock time) and what a final drain of every subscriber yields; non-trivial = at least two writes; distinct = (start, subscribers, moves)")
+	mon := res.Monitor("subscribers-independent", "on the same runs, independent of the model: no write blocks, fails or waits (bound 2s) whichever lossy subscribers stall; every Pull subscriber's own stream chains per id at its own view and folds, after a drain, to the collection's state as its include filter admits it (= List with that filter), never carries a value the filter excludes, and every change carries the change time of the write that set its value; no event object a subscriber received changes afterwards (re-rendered at the end); a PullID subscriber receives a subsequence of its item's values, ends only if the item was removed, and otherwise ends on the item's most recent value; a backpressured subscriber that keeps receiving gets every change in order; distinct = the case; non-trivial = something was merged away or skipped")
 	cases := genCrunCases(f)
 	lines := make([]string, len(cases))
 	for i, c := range cases {
